@@ -8,6 +8,9 @@
 //! (`tools/gen_c20_faults.py`); op `FC` compares them with the real objects on every run.
 use crate::rng::Rng;
 use redis_sim::buggify::{self, FaultConfig, ALL_FAULTS};
+#[path = "c20_faults_gen.rs"]
+mod faults_gen;
+use faults_gen::MODEL_FAULTS;
 use redis_sim::io::simulation::SimulatedRng;
 
 /// ids that are not in the catalogue (codes 1000 …): a fault nobody configured, test ids
@@ -21,9 +24,11 @@ pub struct BugState {
     here_id: Option<String>,
 }
 
+/// fault codes are indices into the catalogue the MODEL was generated with: a fault id added to
+/// /repo's `ALL_FAULTS` (which no preset configures and nobody consults) changes nothing here
 fn id_of(code: u64) -> &'static str {
-    if (code as usize) < ALL_FAULTS.len() {
-        ALL_FAULTS[code as usize]
+    if (code as usize) < MODEL_FAULTS.len() {
+        MODEL_FAULTS[code as usize]
     } else {
         EXTRA_IDS[(code as usize - 1000) % EXTRA_IDS.len()]
     }
@@ -39,7 +44,7 @@ impl BugState {
     }
 
     fn code_of(&self, id: &str) -> String {
-        if let Some(i) = ALL_FAULTS.iter().position(|x| *x == id) {
+        if let Some(i) = MODEL_FAULTS.iter().position(|x| *x == id) {
             return i.to_string();
         }
         if let Some(i) = EXTRA_IDS.iter().position(|x| *x == id) {
@@ -74,15 +79,15 @@ impl BugState {
                     "chaos" => FaultConfig::chaos(),
                     _ => return Some("bad-op".into()),
                 };
-                // the real object, canonically: catalogue size, enabled, multiplier, the whole table by code
+                // the real object, canonically: enabled, multiplier, the whole table by code (an id the model's
+                // catalogue does not know prints as `?name`)
                 let mut v: Vec<(u64, String)> = self.cfg.probabilities.iter().map(|(k, p)| {
                     let c = self.code_of(k);
                     (c.parse::<u64>().unwrap_or(u64::MAX), format!("{}:{}", c, p.to_bits()))
                 }).collect();
                 v.sort();
-                format!("faults={} en={} mult={} probs={}", ALL_FAULTS.len(), self.cfg.enabled as u8, self.cfg.global_multiplier.to_bits(), v.into_iter().map(|x| x.1).collect::<Vec<_>>().join(","))
+                format!("en={} mult={} probs={}", self.cfg.enabled as u8, self.cfg.global_multiplier.to_bits(), v.into_iter().map(|x| x.1).collect::<Vec<_>>().join(","))
             }
-            "FNAME" => id_of(n(1)).to_string(),
             "FSET" => {
                 self.cfg.set(id_of(n(1)), f64::from_bits(n(2)));
                 "ok".into()
@@ -199,7 +204,7 @@ fn mult(r: &mut Rng) -> u64 {
 
 fn fault_code(r: &mut Rng) -> u64 {
     match r.below(10) {
-        0..=6 => r.below(ALL_FAULTS.len() as u64),
+        0..=6 => r.below(MODEL_FAULTS.len() as u64),
         7 => *r.pick(&[0u64, 6, 14, 25, 39]),
         _ => 1000 + r.below(EXTRA_IDS.len() as u64),
     }
@@ -216,11 +221,9 @@ pub fn gen_script(r: &mut Rng, seed: u64) -> Vec<String> {
     s.push("FRESET".into());
     if r.chance(1, 4) {
         // the whole catalogue under this preset: every `get`
-        for c in 0..ALL_FAULTS.len() as u64 {
+        for c in 0..MODEL_FAULTS.len() as u64 {
             s.push(format!("FGET {}", c));
         }
-        s.push("FNAME 0".into());
-        s.push(format!("FNAME {}", ALL_FAULTS.len() - 1));
     }
     // faults given a sizeable probability in this script: decisions about them trigger often enough
     let mut hot: Vec<u64> = Vec::new();
@@ -260,4 +263,12 @@ pub fn gen_script(r: &mut Rng, seed: u64) -> Vec<String> {
     s.push("U64".into());
     s.push("FSUP 0".into());
     s
+}
+
+/// catalogue drift, for the evidence (never a violation by itself): ids of /repo's `ALL_FAULTS` the
+/// model's catalogue does not have, and ids of the model's catalogue that /repo no longer has
+pub fn catalogue_drift() -> (Vec<String>, Vec<String>) {
+    let new_ids = ALL_FAULTS.iter().filter(|x| !MODEL_FAULTS.contains(x)).map(|x| x.to_string()).collect();
+    let gone = MODEL_FAULTS.iter().filter(|x| !ALL_FAULTS.contains(x)).map(|x| x.to_string()).collect();
+    (new_ids, gone)
 }
